@@ -380,6 +380,10 @@ def check_package(ctx, env, spec, directed=False):
         # ---- package
         try:
             if spec['kind'] == 'zip':
+                if spec.get('stale'):
+                    # the source tree is itself a directory package of an earlier release (re-packaging under a new manifest)
+                    project.Manifest(spec['name'] + '.old', '0.0.1', 'stale_package', pipeline='stale.module').write(source)
+                    ctx.count('repackaged_over_stale_manifest')
                 package = project.Package.create(source, manifest, root / f'out.{project.Package.FORMAT}')
             else:
                 manifest.write(source)
@@ -1030,6 +1034,7 @@ def gen_spec(env, rng, serial):
         'marks': [rng.choice(['x', 'y', 'scale', 'é', 'quote"\'', 'back\\slash', '0']) for _ in range(rng.randint(1, 5))],
         'evaluation': evaluation, 'data': data, 'helper': rng.random() < 0.5,
         'kind': rng.choice(['zip', 'zip', 'dir']), 'via': rng.choice(['install', 'install', 'posix', 'volatile']),
+        'stale': rng.random() < 0.4,
     }
 
 
